@@ -135,16 +135,11 @@ TGetStart ==
     /\ UNCHANGED <<wpend, callow, cand, hk, tagsSeen, runTags>>
     /\ Consume
 
-(* store reads of the running get of c are bounded by what its `ge` reports *)
-RECURSIVE GeFrom(_, _)
-GeFrom(c, j) == IF j > Len(Rec) \/ Rec[j].e = "reset" THEN 0
-                ELSE IF Rec[j].e = "ge" /\ Rec[j].c = c THEN Rec[j].db ELSE GeFrom(c, j + 1)
-
 (* the store read precedes its `db` event, the fill follows the `dbx` event *)
 THidden(c) ==
     \/ /\ Probe(c) \/ Flight(c) \/ (hk[c] = 0 /\ Fill(c))
        /\ UNCHANGED <<l, done, wpend, callow, cand, gal, hk, tagsSeen, runTags>>
-    \/ /\ pc[c].st = "readdb" /\ hk[c] = 0 /\ pc[c].ndb < GeFrom(c, l)
+    \/ /\ pc[c].st = "readdb" /\ hk[c] = 0
        /\ ReadDb(c)
        /\ hk' = [hk EXCEPT ![c] = 1]
        /\ UNCHANGED <<l, done, wpend, callow, cand, gal, tagsSeen, runTags>>
